@@ -341,7 +341,9 @@ def daily_cases(draw):
     return {"kind": "daily", "profile": draw(st.sampled_from(["legacy", "legacy", "billing", "current"])),
             "seed": draw(st.integers(0, 2 ** 31 - 1)), "tz": draw(st.sampled_from(["America/Chicago", "UTC", "Europe/Berlin"])),
             "noise": draw(st.sampled_from([0.05, 0.3, 0.8])), "n": draw(st.integers(330, 365)),
-            "weekend_shift": draw(st.sampled_from([0.0, 0.3])), "side": draw(st.sampled_from(["below", "above", "equal"]))}
+            "weekend_shift": draw(st.sampled_from([0.0, 0.3])), "side": draw(st.sampled_from(["below", "above", "equal"])),
+            # the judged fit may be the second fit of the same model object (first on another, much cleaner or noisier meter)
+            "prefit": draw(st.sampled_from([None, None, "clean", "noisy"]))}
 
 
 def judge_daily(c, rec):
@@ -367,6 +369,10 @@ def judge_daily(c, rec):
         thr = m.settings.cvrmse_threshold
     else:
         m, d = build(thr)
+        if c.get("prefit"):
+            pre = synth.daily_frame(n=350, tz=c["tz"], noise_seed=c["seed"] % 1000 + 3, noise=0.01 if c["prefit"] == "clean" else 1.5, weekend_shift=0.5)
+            Pre = em.BillingBaselineData if prof == "billing" else em.DailyBaselineData
+            m.fit(Pre(pre, is_electricity_data=True), ignore_disqualification=True)
         m.fit(d, ignore_disqualification=True)
     err = m.error
     if prof != "current" and err["CVRMSE"] != cv0:
@@ -393,7 +399,7 @@ def judge_daily(c, rec):
     for k in ("RMSE", "MAE", "CVRMSE", "PNRMSE", "wRMSE"):
         if stored.get(k) != err[k]:
             rec.violation("daily/stored-error/" + k, c, "to_dict()['info']['error'][%s]=%r, model.error=%r" % (k, stored.get(k), err[k]))
-    rec.case(c, True, ["sub=daily", "profile=" + prof, "dq=%d" % dq, "side=" + c["side"]])
+    rec.case(c, True, ["sub=daily", "profile=" + prof, "dq=%d" % dq, "side=" + c["side"], "reused-object=%d" % bool(c.get("prefit") and prof != "current")])
 
 
 # ------------------------------------------------------------------ CalTRACK ModelMetrics
